@@ -6,6 +6,7 @@ import (
 	"encoding/json"
 	"fmt"
 	"os"
+	"os/exec"
 	"path/filepath"
 	"sort"
 	"strconv"
@@ -70,12 +71,20 @@ func NewRun(id, level string) *Run {
 
 func (r *Run) Thorough() bool { return r.Tier == "thorough" }
 
-// N picks a case count by tier.
+// SubRun names the secondary build this process is (e.g. "386": the same check compiled for and running as a
+// linux/386 binary, where Go's int and uintptr are 32 bits wide); "" for the primary run.
+func SubRun() string { return os.Getenv("VERIF_SUBRUN") }
+
+// N picks a case count by tier (a quarter of it in a secondary build).
 func (r *Run) N(quick, thorough int) int {
+	n := quick
 	if r.Thorough() {
-		return thorough
+		n = thorough
 	}
-	return quick
+	if SubRun() != "" {
+		n = n/4 + 1
+	}
+	return n
 }
 
 func (r *Run) loadKnown() {
@@ -181,6 +190,9 @@ func (r *Run) SoftInconclusive(why string) {
 // Require marks the run inconclusive unless the counter reached min: a run
 // that observed too little proves nothing.
 func (r *Run) Require(counter string, min int64) {
+	if SubRun() != "" {
+		return // reduced counts; the primary run carries the minimum-observation rules
+	}
 	if got := r.Counter(counter); got < min {
 		r.Inconclusive(fmt.Sprintf("observed too little: %s=%d < %d", counter, got, min))
 	}
@@ -247,8 +259,13 @@ func (r *Run) Finish(evaluations, distinctNontrivial int64, rule string) {
 
 	b, _ := json.MarshalIndent(ev, "", " ")
 	dir := filepath.Join(VerifDir(), "evidence")
+	name := r.ID + ".json"
+	if SubRun() != "" { // a secondary build reports to its parent, which owns the evidence file
+		dir = BinDir()
+		name = r.ID + "-sub-" + SubRun() + ".json"
+	}
 	os.MkdirAll(dir, 0o755)
-	if err := os.WriteFile(filepath.Join(dir, r.ID+".json"), append(b, '\n'), 0o644); err != nil {
+	if err := os.WriteFile(filepath.Join(dir, name), append(b, '\n'), 0o644); err != nil {
 		fmt.Printf("INCONCLUSIVE property=%s cannot write evidence: %v\n", r.ID, err)
 		os.Exit(ExitInconclusive)
 	}
@@ -293,4 +310,65 @@ func Parallel(n int, f func(i int)) {
 		}()
 	}
 	wg.Wait()
+}
+
+// RunSecondaryBuild runs the same check as a linux/386 build of the harness (Go's int is 32 bits wide there) with
+// reduced counts, relays its violations and records its counters under coverage["secondary_build_linux_386"].
+func (r *Run) RunSecondaryBuild() {
+	if SubRun() != "" {
+		return
+	}
+	bin, err := BuildHarnessCmd("vc", "386")
+	if err != nil {
+		r.Inconclusive("cannot build the linux/386 variant of the check: " + err.Error())
+		return
+	}
+	cmd := exec.Command(bin, r.ID)
+	cmd.Env = append(os.Environ(), "VERIF_SUBRUN=386")
+	out, err := cmd.CombinedOutput()
+	code := 0
+	if ee, ok := err.(*exec.ExitError); ok {
+		code = ee.ExitCode()
+	} else if err != nil {
+		r.Inconclusive("the linux/386 variant did not run: " + err.Error())
+		return
+	}
+	lines := strings.Split(string(out), "\n")
+	for i, l := range lines {
+		if strings.HasPrefix(l, "VIOLATION ") {
+			detail := ""
+			if i+1 < len(lines) {
+				detail = strings.TrimSpace(lines[i+1])
+			}
+			sig := "on-linux-386-build"
+			if k := strings.Index(detail, ":"); k > 0 {
+				sig += ":" + detail[:k]
+			}
+			r.Violation(sig, "as a linux/386 binary (32-bit int): "+detail, map[string]any{"check": r.ID, "secondary_build": "linux/386", "sub_run_line": l})
+		}
+	}
+	switch code {
+	case 0, 1:
+	case ExitInconclusive:
+		r.Inconclusive("the linux/386 variant was inconclusive: " + lastLines(string(out), 2))
+	default:
+		r.Violation("on-linux-386-build:crash", "the check ended abnormally as a linux/386 binary: "+lastLines(string(out), 6), map[string]any{"check": r.ID, "secondary_build": "linux/386"})
+	}
+	if b, err := os.ReadFile(filepath.Join(BinDir(), r.ID+"-sub-386.json")); err == nil {
+		var ev map[string]any
+		if json.Unmarshal(b, &ev) == nil {
+			if cov, ok := ev["coverage"].(map[string]any); ok {
+				r.Set("secondary_build_linux_386", map[string]any{"evaluations": cov["evaluations"], "counters": cov["counters"], "violations": ev["violations"]})
+				r.Count("secondary_build_linux_386_ran", 1)
+			}
+		}
+	}
+}
+
+func lastLines(s string, n int) string {
+	l := strings.Split(strings.TrimSpace(s), "\n")
+	if len(l) > n {
+		l = l[len(l)-n:]
+	}
+	return strings.Join(l, " | ")
 }
